@@ -6,6 +6,8 @@
  *   inject <errno>...      accept <sid> [busy]     drain <sid>     closesrv <sid>     closecli <cid>
  *   ipcbig <kinds> <payload> <caps..>   (uv_write2 with handle + payload; the k-th syscall on the sending fd accepts at most caps[k] bytes, -11 = EAGAIN, 0 = unlimited)
  *   server .. <backlog>   (optional 5th word)     cscript <codes..>   (results of the connect(2) calls of the NEXT uvc: 1 = real call, -4 = EINTR then retry, other -errno = fail without reaching the kernel)
+ *   retry <rid> tcp|pipe <sid> f|g <script>   (connect to a Failing target / the Good server; the k-th callback on the handle performs script[k]:
+ *        f/g = re-submit a connect on the SAME handle, w = uv_write, W = uv_write + re-submit g, s = uv_shutdown, c = uv_close, - = nothing)
  *   uvcb <cid> <sid> inuse|free|twice   (tcp client handle with a prior state: uv_tcp_bind to a port in use (EADDRINUSE deferred) / to a free port / a second uv_tcp_connect while the first is pending)
  *   badconnect <cid> tcp|pipe|long|longnt [close]     dblconnect <cid> <cid>     ipc <kinds> <late|imm|N>     wcheck     end
  * Output: one line per API result / callback / observation (see checks/c07_sim.py). */
@@ -98,7 +100,8 @@ typedef struct { int used; int raw; int fd; uv_stream_t* h; uv_connect_t req; in
 typedef struct { uv_stream_t* h; int sid; int seq; } acc_t;
 static server_t srv[MAXN]; static client_t cli[MAXN]; static acc_t accd[512]; static int naccd;
 
-static int cid_of_fd(int fd) { int i; for (i = 0; i < MAXN; i++) if (cli[i].used && !cli[i].raw && !cli[i].closed && cli[i].h && cli[i].h->io_watcher.fd == fd) return i; return -1; }
+static int rid_of_fd(int fd);
+static int cid_of_fd(int fd) { int i; for (i = 0; i < MAXN; i++) if (cli[i].used && !cli[i].raw && !cli[i].closed && cli[i].h && cli[i].h->io_watcher.fd == fd) return i; return rid_of_fd(fd); }
 static int port_of(uv_handle_t* h, int peer) {
   struct sockaddr_storage ss; socklen_t l = sizeof ss; int fd = -1;
   if (uv_fileno(h, &fd) || (peer ? getpeername(fd, (struct sockaddr*) &ss, &l) : getsockname(fd, (struct sockaddr*) &ss, &l))) return -1;
@@ -156,6 +159,56 @@ static void srv_addr(int sid, struct sockaddr_storage* ss, socklen_t* len) {
   else { struct sockaddr_un* u = (struct sockaddr_un*) ss; u->sun_family = AF_UNIX; strcpy(u->sun_path, s->path); *len = sizeof *u; }
 }
 
+/* ---- connect callbacks that act on the same handle: re-submit, write, shutdown, close */
+typedef struct { int used, kind, sid, natt, ncb, closed, nw, wcbs, nsh, shcbs; uv_stream_t* h; char script[24];
+                 uv_connect_t req[10]; int ret[10], cbs[10], status[10]; char target[10]; uv_write_t wr[10]; uv_shutdown_t sh; } retry_t;
+static retry_t rt[16];
+static void retry_cb(uv_connect_t* req, int status);
+static void retry_submit(int rid, char target) {
+  retry_t* t = &rt[rid]; int a = t->natt, r; struct sockaddr_storage ss; socklen_t len;
+  if (a >= 10) return;
+  t->natt++; t->target[a] = target; t->req[a].data = (void*)(long) (rid * 16 + a);
+  cur_cid = 300 + rid;
+  if (t->kind == 0) {
+    if (target == 'g') srv_addr(t->sid, &ss, &len);
+    else { struct sockaddr_in* a4 = (struct sockaddr_in*) &ss; socklen_t l = sizeof *a4; int s = socket(AF_INET, SOCK_STREAM, 0);
+           memset(&ss, 0, sizeof ss); uv_ip4_addr("127.0.0.1", 0, a4); bind(s, (struct sockaddr*) a4, sizeof *a4); getsockname(s, (struct sockaddr*) a4, &l); close(s); }
+    r = uv_tcp_connect(&t->req[a], (uv_tcp_t*) t->h, (struct sockaddr*) &ss, retry_cb);
+  } else {
+    char path[96];
+    if (target == 'g') snprintf(path, sizeof path, "%s", srv[t->sid].path); else snprintf(path, sizeof path, "/var/tmp/c07sim-%d-missing.sock", (int) getpid());
+    r = uv_pipe_connect2(&t->req[a], (uv_pipe_t*) t->h, path, strlen(path), 0, retry_cb);
+  }
+  cur_cid = -1;
+  t->ret[a] = r;
+  printf("resub %d att=%d target=%c r=%d\n", rid, a, target, r);
+}
+static void retry_wcb(uv_write_t* w, int status) { int rid = (int)(long) w->data; rt[rid].wcbs++; printf("rwcb %d status=%d\n", rid, status); }
+static void retry_shcb(uv_shutdown_t* q, int status) { int rid = (int)(long) q->data; rt[rid].shcbs++; printf("rshcb %d status=%d\n", rid, status); }
+static void retry_cb(uv_connect_t* req, int status) {
+  int rid = (int)(long) req->data / 16, a = (int)(long) req->data % 16; retry_t* t = &rt[rid]; char act;
+  struct sockaddr_storage ss; socklen_t l = sizeof ss; int fd = -1, peer = 0;
+  t->cbs[a]++; t->status[a] = status;
+  if (!t->closed && uv_fileno((uv_handle_t*) t->h, &fd) == 0) peer = getpeername(fd, (struct sockaddr*) &ss, &l) == 0;
+  printf("rcb %d att=%d status=%d peer=%d\n", rid, a, status, peer);
+  act = t->ncb < (int) strlen(t->script) ? t->script[t->ncb] : '-'; t->ncb++;
+  if (t->closed) { printf("rcbend %d\n", rid); return; }
+  if (status == 0) { char b = (char) (200 + rid); uv_buf_t buf = uv_buf_init(&b, 1); int r = uv_try_write(t->h, &buf, 1); if (r != 1) printf("token-write %d r=%d\n", 200 + rid, r); }
+  if ((act == 'w' || act == 'W') && status < 0 && t->nw < 10) {
+    static char x = 'x'; uv_buf_t buf = uv_buf_init(&x, 1); int r;
+    t->wr[t->nw].data = (void*)(long) rid; r = uv_write(&t->wr[t->nw], t->h, &buf, 1, retry_wcb);
+    printf("rwrite %d r=%d\n", rid, r); if (r == 0) t->nw++;
+  }
+  if (act == 's' && t->nsh == 0) { int r; t->sh.data = (void*)(long) rid; r = uv_shutdown(&t->sh, t->h, retry_shcb); printf("rshut %d r=%d\n", rid, r); if (r == 0) t->nsh++; }
+  if (act == 'c') { uv_close((uv_handle_t*) t->h, free_cb); t->closed = 1; printf("rclose %d\n", rid); }
+  if (status < 0 && (act == 'f' || act == 'g' || act == 'W')) {     /* re-submit on the same handle, again if refused synchronously */
+    int tries = 0, a;
+    do { a = t->natt; retry_submit(rid, act == 'W' ? 'g' : act); } while (a < 10 && t->ret[a] != 0 && ++tries < 3);
+  }
+  printf("rcbend %d\n", rid);
+}
+
+static int rid_of_fd(int fd) { int i; for (i = 0; i < 16; i++) if (rt[i].used && !rt[i].closed && rt[i].h->io_watcher.fd == fd) return 300 + i; return -1; }
 static const char* peer_state(int fd) {
   char b[8]; ssize_t n = recv(fd, b, sizeof b, MSG_DONTWAIT | MSG_PEEK);
   if (n == 0) return "closed";
@@ -369,7 +422,13 @@ int main(void) {
       printf("uvc %d r=%d kind=tcp\n", cid, r);
       if (w[3][0] == 't') { static uv_connect_t second[MAXN]; int r2 = uv_tcp_connect(&second[cid], (uv_tcp_t*) c->h, (struct sockaddr*) &ss, connect_cb); second[cid].data = (void*)(long) cid; printf("uvc2 %d r=%d\n", cid, r2); }
       cur_cid = -1; ncscript = icscript = 0;
+    } else if (!strcmp(w[0], "retry") && n == 6) {
+      int rid = atoi(w[1]); retry_t* t = &rt[rid];
+      t->used = 1; t->kind = w[2][0] == 't' ? 0 : 2; t->sid = atoi(w[3]); snprintf(t->script, sizeof t->script, "%s", w[5]);
+      t->h = new_stream(t->kind);
+      retry_submit(rid, w[4][0]);
     } else if (!strcmp(w[0], "run") && n == 2) { run_n(atoi(w[1])); printf("ran spare=%d\n", loop->emfile_fd != -1);
+      for (i = 0; i < 16; i++) if (rt[i].used && !rt[i].closed) printf("rst %d pollout=%d pending=%d\n", i, !!uv__io_active(&rt[i].h->io_watcher, POLLOUT), rt[i].h->connect_req != NULL);
     } else if (!strcmp(w[0], "inject")) { ninject = iinject = 0; for (i = 1; i < n; i++) inject[ninject++] = atoi(w[i]); printf("inject %d\n", ninject);
     } else if (!strcmp(w[0], "accept") && n >= 2) { do_accept(atoi(w[1]), n > 2);
     } else if (!strcmp(w[0], "drain") && n == 2) {
@@ -432,10 +491,15 @@ int main(void) {
   for (int i = 0; i < MAXN; i++) if (srv[i].h) printf("srv %d alive=%d announced=%d claimed=%d\n", i, srv[i].alive, srv[i].announced, srv[i].claimed);
   printf("fired=%d spare=%d\n", fired, loop->emfile_fd != -1);
   /* teardown: everything closed, every connect callback must have run by now */
+  for (int i = 0; i < 16; i++) if (rt[i].used && !rt[i].closed) { uv_close((uv_handle_t*) rt[i].h, free_cb); rt[i].closed = 2; }
   for (int i = 0; i < naccd; i++) uv_close((uv_handle_t*) accd[i].h, free_cb);
   for (int i = 0; i < MAXN; i++) { if (srv[i].h && srv[i].alive) { uv_close((uv_handle_t*) srv[i].h, free_cb); if (srv[i].kind == 2) unlink(srv[i].path); } }
   for (int i = 0; i < MAXN; i++) if (cli[i].used && cli[i].used != 3 && !cli[i].closed) { if (cli[i].raw) close(cli[i].fd); else uv_close((uv_handle_t*) cli[i].h, free_cb); }
   run_n(6);
+  for (int i = 0; i < 16; i++) if (rt[i].used) {
+    for (int a = 0; a < rt[i].natt; a++) printf("rfinal %d att=%d target=%c ret=%d cbs=%d status=%d\n", i, a, rt[i].target[a], rt[i].ret[a], rt[i].cbs[a], rt[i].status[a]);
+    printf("rfinalw %d writes=%d wcbs=%d shutdowns=%d shcbs=%d userclosed=%d\n", i, rt[i].nw, rt[i].wcbs, rt[i].nsh, rt[i].shcbs, rt[i].closed == 1);
+  }
   for (int i = 0; i < MAXN; i++) if (cli[i].used && !cli[i].raw) printf("final %d ret=%d cbs=%d status=%d\n", i, cli[i].ret, cli[i].cbs, cli[i].status);
   printf("loop-alive=%d close=%d\n", uv_loop_alive(loop), uv_loop_close(loop));
   return 0;
